@@ -574,7 +574,20 @@ pub fn gen_parse(rng: &mut Rng, sw: &Swarm, now: &Reading) -> OpKind {
                         2 => txt.insert(0, '-'),
                         _ => {}
                     }
-                    b.push(&pic, txt, Sem::Year { k: year_kind, n: year_n });
+                    if k == 2 && !txt.starts_with(['+', '-']) && b.rng.chance(1, 8) {
+                        // the year in full under a two-letter field: zero-padded, or a real four-digit year
+                        let (txt, n) = match b.rng.below(3) {
+                            0 => (format!("{:04}", year_n), year_n),
+                            1 => (format!("{:03}", year_n), year_n),
+                            _ => {
+                                let y = 1000 + b.rng.below(9000) as u32;
+                                (format!("{}", y), y)
+                            }
+                        };
+                        b.push(&pic, txt, Sem::Year { k: 2, n });
+                    } else {
+                        b.push(&pic, txt, Sem::Year { k: year_kind, n: year_n });
+                    }
                 }
                 D::Month => match month_kind {
                     1 => {
